@@ -103,7 +103,7 @@ def camel(s):
 
 
 def kebab_x(s):
-    return "x-" + s.replace("_", "-")
+    return "q-" + s.replace("_", "-")  # must not collide with the key patterns used for properties fields (^x-, ^k_)
 
 
 ALIASERS = {"identity": ident, "camel": camel, "custom": kebab_x}
@@ -628,6 +628,71 @@ class SubPrim(T):
 
     def valid(self, rng, cx, depth=0):
         return Prim(self.base).valid(rng, cx, depth)
+
+
+STD = {
+    # name: (annotation, json kind, valid witnesses, invalid witnesses)
+    "uuid": ("UUID", "str", ["12345678-1234-5678-1234-567812345678", "00000000-0000-0000-0000-000000000000"], ["zz", "1234"]),
+    "date": ("date", "str", ["2020-01-31", "1999-12-01"], ["2020-13-01", "yesterday"]),
+    "datetime": ("datetime", "str", ["2020-01-31T12:30:00", "1999-12-01T00:00:00+00:00"], ["2020-01-31T25:00:00", "now"]),
+    "time": ("time", "str", ["12:30:00", "00:00:01"], ["25:00:00", "noon"]),
+    "decimal": ("Decimal", "num", [1.5, 2, -0.25], []),
+    "bytes": ("bytes", "str", ["YWJj", "", "AAAA"], []),
+    "path": ("Path", "str", ["/tmp/x", "a/b", "rel"], []),
+    "ipv4": ("IPv4Address", "str", ["127.0.0.1", "10.0.0.255"], ["256.1.1.1", "localhost"]),
+    "ipv6": ("IPv6Address", "str", ["::1", "fe80::1"], ["::zz", "1"]),
+    "pattern": ("re.Pattern", "str", ["^a+$", "x|y"], ["(", "[a"]),
+}
+
+
+def _std_parse(kind, d):
+    import datetime as dt
+    import decimal
+    import ipaddress
+    import pathlib
+    import re as _re
+    import uuid
+    from base64 import b64decode
+    return {"uuid": uuid.UUID, "date": dt.date.fromisoformat, "datetime": dt.datetime.fromisoformat, "time": dt.time.fromisoformat,
+            "decimal": decimal.Decimal, "bytes": b64decode, "path": pathlib.Path, "ipv4": ipaddress.IPv4Address, "ipv6": ipaddress.IPv6Address,
+            "pattern": _re.compile}[kind](d)
+
+
+@dataclass
+class Std(T):
+    """standard-library type handled by apischema's default conversions"""
+    s: str
+
+    def ann(self):
+        return STD[self.s][0]
+
+    def sig(self):
+        return "std:" + self.s
+
+    def hashable(self):
+        return self.s not in ("pattern",)
+
+    def deser(self, d, cx):
+        if jtype(d) is None:
+            raise Unspecified("non-JSON datum")
+        jk = STD[self.s][1]
+        ok_type = type(d) is str if jk == "str" else type(d) in (int, float)
+        if not ok_type:
+            if cx.coerce:
+                raise Unspecified("coercion at a std-type position")
+            return Err([((), "type", "std:" + self.s)])
+        try:
+            v = _std_parse(self.s, d)
+        except Exception:
+            return Err([((), "format", "std:" + self.s)])
+        return Ok(canon(v))
+
+    def valid(self, rng, cx, depth=0):
+        return rng.choice(STD[self.s][2])
+
+    def atoms(self, out, cx):
+        out.update(STD[self.s][2])
+        out.update(STD[self.s][3])
 
 
 # constraint name -> (json types it applies to, error kind)
@@ -1175,9 +1240,6 @@ class ObjectT(T):
                 if any(self.ext(self.by_name(g), cx) in d for g in reqby):
                     errs.append(((ext,), "missing", "field"))
         for f in infs:
-            if f.aggregate and self.ext(f, cx) in d:
-                raise Unspecified("datum key equal to the name of an aggregate field")
-        for f in infs:
             if not f.flatten:
                 continue
             sub = resolve_obj(f.t, cx)
@@ -1319,6 +1381,12 @@ from apischema import (Undefined, UndefinedType, alias, dependent_required, sche
 from apischema.metadata import (flatten, properties, required, skip, none_as_undefined, fall_back_on_default,
                                 init_var, post_init, default_as_set, conversion, validators)
 from apischema.fields import with_fields_set
+from collections import deque
+from datetime import date, datetime, time
+from decimal import Decimal
+from ipaddress import IPv4Address, IPv6Address
+from pathlib import Path
+from uuid import UUID
 from vf.spec import CLASS_ALIASERS
 NoneType = type(None)
 """
